@@ -292,7 +292,7 @@ func (g *c40Gen) next() (metadb.MessageEventAppend, string) {
 		// both leaders number their events the same way: ids collide across leaders
 		id = fmt.Sprintf("e%d", g.counter[leader])
 	}
-	typ := c40Types[t.Weighted([]int{10, 3, 3, 2, 1, 1, 2})]
+	typ := c40Types[t.Weighted([]int{14, 3, 3, 1, 1, 1, 1})]
 	ev := metadb.MessageEventAppend{
 		ChannelID: c40Channel, ChannelType: c40ChanType,
 		ClientMsgNo: fmt.Sprintf("m%d", t.Intn(g.nMsgs)),
